@@ -579,7 +579,7 @@ pub fn run(args: &Args) -> i32 {
     let mut rep = Report::new("C20", args.tier, args.seed, "model_checking");
     rep.exhaustive = true;
     rep.rule = format!(
-        "explicit-state BFS (history replay on fresh real Encoder/Decoder objects, states deduplicated by the complete canonical digest of both dynamic tables + undelivered encoder/decoder stream bytes + unsettled sections) to depth {depth} from 3 start states (empty; three sections exchanged and acknowledged; two sections decoded but unacknowledged) for every configuration capacity in {{0, 31, 40, 100, 4096}} (thorough: + 64, 200) x blocked-streams limit in {{0, 1, 100}} (thorough: + 2). Events: encode one of 6 sections over names {{x, y, accept}} x values {{1, 2}} (duplicates, dynamic and static name references; eviction at small capacities) on a fresh stream; deliver the next encoder instruction / all / all but the last byte of the next instruction; decode any pending section; deliver the decoder stream; cancel any pending section. Every state is built twice (two hash-map seeds) and must agree. Plus: a 40-section round-robin workload per configuration under DFS with <= 2 delivery deviations (encoder stream late, decoding late, acknowledgement late) and a final flush. Invariants in every state: decode returns the original list iff the reference says its instructions have arrived, MissingRefs otherwise; table size <= capacity on both sides; decoder table = reference table; no entry referenced by an unsettled section evicted; neither side errors on the other's bytes. non-trivial = states with >= 2 sections."
+        "explicit-state BFS (history replay on fresh real Encoder/Decoder objects, states deduplicated by the complete canonical digest of both dynamic tables + undelivered encoder/decoder stream bytes + unsettled sections) to depth {depth} from 3 start states (empty; three sections exchanged and acknowledged; two sections decoded but unacknowledged) for every configuration capacity in {{0, 31, 40, 100, 4096}} (thorough: + 64, 200) x blocked-streams limit in {{0, 1, 100}} (thorough: + 2); capacities 50, 63, 120, 250 (residues >= 16 modulo 32) with the long workload (thorough: and one BFS from the empty start). Events: encode one of 6 sections over names {{x, y, accept}} x values {{1, 2}} (duplicates, dynamic and static name references; eviction at small capacities) on a fresh stream; deliver the next encoder instruction / all / all but the last byte of the next instruction; decode any pending section; deliver the decoder stream; cancel any pending section. Every state is built twice (two hash-map seeds) and must agree. Plus: a 40-section round-robin workload per configuration under DFS with <= 2 delivery deviations (encoder stream late, decoding late, acknowledgement late) and a final flush. Invariants in every state: decode returns the original list iff the reference says its instructions have arrived, MissingRefs otherwise; table size <= capacity on both sides; decoder table = reference table; no entry referenced by an unsettled section evicted; neither side errors on the other's bytes. non-trivial = states with >= 2 sections."
     );
     rep.assumptions = vec![
         "refimpl::qpack dynamic-table decoder (self-tested on RFC 9204 Appendix B) is the oracle; both tables are created with the configured capacity (no Set Dynamic Table Capacity instruction), as the repository's own tests do".into(),
@@ -604,6 +604,17 @@ pub fn run(args: &Args) -> i32 {
             jobs.push(Job::Bfs(*c, w));
         }
         jobs.push(Job::Long(*c));
+    }
+    // capacities that are not a multiple of 32 in every residue class that matters for the Required Insert Count
+    // modulus 2 * floor(capacity / 32) (residues >= 16 are where a "simplified" modulus differs), long workload only,
+    // and one BFS from the empty start
+    for &capacity in &[50usize, 63, 120, 250] {
+        for &blocked in &[0usize, 100] {
+            jobs.push(Job::Long(Config { capacity, blocked }));
+        }
+        if thorough {
+            jobs.push(Job::Bfs(Config { capacity, blocked: 100 }, 0));
+        }
     }
     let cap_states = if thorough { 3_000_000 } else { 150_000 };
     let deadline = std::time::Instant::now() + std::time::Duration::from_secs(if thorough { 1200 } else { 120 });
